@@ -40,6 +40,8 @@ CLAIMS = {
          "semantic agreement is bounded only.", "8 C12"),
  "C16": ("other", "Proved for all inputs: NewJsonNode returns a valid document or an error for every native value that encoding/json or yaml.v2 can produce (incl. yaml maps with interface{} keys), never panics, and is total on scalars and on maps of ready-made nodes; the readers establish validity for arbitrary text. Which scalars YAML quotes and how it resolves plain scalars is inside yaml.v2: the round trips JSON->YAML->JSON and 'JSON text read as YAML' are the contract of the wrapper verifYamlJson, evaluated on a bounded universe that contains the ambiguous strings named by the property.",
          "yaml.v2 / encoding/json behaviour is assumed for the proofs and only bounded-checked.", "8 C16"),
+ "C08": ("other", "Proved for all inputs: jsonSet.patch and jsonMultiset.patch (hash-keyed maps, five loops each, with invariants) never panic, return valid documents, satisfy the strict leaf semantics for list paths, and the shared leaf function rejects a set/multiset hunk on a non-array (repaired defect); newPathSetKeys returns a valid key object. Set / bag semantics independent of member order is the contract of the wrapper verifSetSemantics (reference: remove exactly the listed members, fail when absent or not present often enough, add the listed ones), evaluated on all (a, b, target) triples of arrays over {1,2,3} up to length 3 under SET and MULTISET; verifSetPatchNonArray and verifKeyedMember cover non-array targets and keyed members. The ignored nested failure of keyed members is reported as KNOWN-FINDING.",
+         "membership is decided by hash codes (not modelled); the whole-view membership postcondition is bounded only.", "8 C08"),
 }
 
 def main():
